@@ -1,1 +1,319 @@
-"""Rules for C09 (see DESIGN.md section 5)."""
+"""C09 -- raster and text outputs."""
+import ast
+import struct
+import zlib
+
+from .. import ev, iso, nf, pat, src
+from ..core import rule, ob, explain, Ob
+from ..ev import PyRaise
+from ..interp import Interp, make_callable, FuncVal, callable_env
+from ..src import Unknown
+from .common import C, need, single
+from . import p11, p14
+
+explain('C09', '''Decided (structural): every raster/text writer takes its rows from matrix_iter / matrix_iter_verbose
+(whose (y div s - b, x div s - b) mapping and validation are decided on position-marker matrices, C11.R6) with the same
+scale/border it used for the header, and truncates a fractional scale with int() before the header dimensions are computed
+(six sized writers); validation dominates the output (C14.R8). PNG: the signature literal, every later write is a chunk,
+the chunk function is length | type+data | CRC32(type+data), IHDR carries (width, height, depth, colour type, 0, 0, 0), the
+bit depth decision table satisfies colours <= 2^depth for 1..16 colours, the scanline packer packs 8/depth samples per byte
+MSB-first with zero fill behind a filter byte for every depth and for every 1-9 sample row of a probe alphabet, border rows
+and columns are border*scale wide, repeated rows use filter 2 over zeros. PBM packs 8 pixels per byte MSB-first (all 256
+groups), XBM the same bits LSB-first; P1/TXT/XPM write one token per cell. Polarity: for each format the value 1 reaches the
+token/colour the format defines as dark (PBM/XBM 1, PAM BLACKANDWHITE 0, PAM colour tuple index, XPM 'X', TXT dark character,
+terminal background). The PAM header decision (TUPLTYPE, DEPTH, MAXVAL) is evaluated over all classes of (dark, light) colours;
+MAXVAL/PPM maxval equal the 0..255 scale of the samples. NOT decided: byte-exact files for real symbols.''')
+
+SIZED = ('write_png', 'write_ppm', 'write_pbm', 'write_pam', 'write_xpm', 'write_xbm')
+
+
+@rule('C09', 'R1', 8, 'one row source per writer, fed with the scale/border of the header')
+def r1(fx):
+    want = {
+        'write_pbm': 'matrix_iter(matrix, matrix_size, scale, border)', 'write_pam': 'matrix_iter(matrix, matrix_size, scale, border)',
+        'write_xpm': 'matrix_iter(matrix, matrix_size, scale, border)', 'write_xbm': 'matrix_iter(matrix, matrix_size, scale, border)',
+        'write_ppm': 'matrix_iter_verbose(matrix, matrix_size, scale, border)',
+        'write_txt': 'matrix_iter(matrix, matrix_size, scale=1, border=border)',
+        'write_terminal': 'matrix_iter(matrix, matrix_size, scale=1, border=border)',
+        'write_terminal_compact': 'matrix_iter(matrix, matrix_size, scale=1, border=border)',
+    }
+    for w, p in want.items():
+        fn = fx.fn('writers', w)
+        calls = [c for c in src.calls_in(fn) if (src.call_name(c) or '') in ('matrix_iter', 'matrix_iter_verbose')]
+        c = single(calls, f'row source of {w}')
+        b = pat.match(c, p)
+        if b is None:
+            # same callee but other arguments: a slot difference, else shape
+            same = src.call_name(c) == p.split('(')[0]
+            if not same:
+                yield ob(f'{w}: row source', False, c, got=ast.unparse(c), want=p)
+                continue
+        yield ob(f'{w}: row source', b is not None, c, got=ast.unparse(c), want=p)
+        # no reassignment of scale/border between the header computation and the row source other than normalisation
+    png = fx.fn('writers', 'write_png')
+    srcs = [ast.unparse(s.value) for s in src.statements(png.body) if isinstance(s, ast.Assign) and ast.unparse(s.targets[0]) == 'miter']
+    yield ob('write_png: rows are the matrix itself (border/scale added by the writer)', srcs[:2] == ['matrix_iter_verbose(matrix, matrix_size, scale=1, border=0)', 'iter(matrix)'],
+             png, got=srcs[:2], want=['matrix_iter_verbose(matrix, matrix_size, scale=1, border=0)', 'iter(matrix)'])
+
+
+@rule('C09', 'R2', 6, 'fractional scale is truncated with int() before the header dimensions are computed')
+def r2(fx):
+    for w in SIZED:
+        fn = fx.fn('writers', w)
+        calls = [c for c in src.calls_in(fn, '_valid_width_height_and_border', into_nested=False)]
+        c = single(calls, f'_valid_width_height_and_border in {w}')
+        b = pat.need(c, '_valid_width_height_and_border(matrix_size, H_s, H_b)', f'size computation of {w}')
+        st = nf.enclosing_stmt(c)
+        okt = pat.match(st, 'width, height, border = _valid_width_height_and_border(matrix_size, scale, border)', mode='stmt') is not None
+        doms = nf.dominators(c, fn, lambda s: pat.match(s, 'scale = int(scale)', mode='stmt') is not None)
+        later = [s for s in fn.body[fn.body.index(st) + 1:] if any(isinstance(n, ast.Name) and n.id == 'scale' and isinstance(n.ctx, ast.Store) for n in ast.walk(s))]
+        yield ob(f'{w}: scale = int(scale) dominates the size computation', bool(doms) and okt and not later, c,
+                 got=f'truncation before: {bool(doms)}; {ast.unparse(st)[:80]}', want='scale = int(scale); width, height, border = _valid_width_height_and_border(matrix_size, scale, border)')
+
+
+@rule('C09', 'R4', 17, 'PNG: signature, chunk = len|type+data|crc, IHDR fields, bit depth table, scanline packing, border and repetition')
+def r4(fx):
+    fn = fx.fn('writers', 'write_png')
+    it = Interp(max_steps=20_000_000)
+    genv = callable_env(fx.forest, 'writers', it, {'pack': struct.pack, 'zlib': _Z(), 'reduce': __import__('functools').reduce})
+    # writes
+    w = single([s for s in fn.body if isinstance(s, ast.With)], 'output block of write_png')
+    writes = sorted((c for c in src.calls_in(w) if src.call_name(c) == 'write'), key=lambda c: (c.lineno, c.col_offset))
+    first = writes[0]
+    sig = ev.ev(first.args[0], {}) if isinstance(first.args[0], ast.Constant) else None
+    yield ob('PNG signature', sig == b'\x89PNG\r\n\x1a\n', first, got=sig, want=b'\x89PNG\r\n\x1a\n')
+    others = [c for c in writes[1:] if not (isinstance(c.args[0], ast.Call) and src.call_name(c.args[0]) == 'chunk')]
+    yield ob('every write after the signature is a chunk', not others and len(writes) >= 4, w, got=[ast.unparse(o)[:50] for o in others], want=[])
+    kinds = [ev.ev(c.args[0].args[0], {}) for c in writes[1:] if isinstance(c.args[0], ast.Call)]
+    yield ob('chunk order IHDR [pHYs] [PLTE [tRNS]] [tRNS] IDAT IEND', kinds == [b'IHDR', b'pHYs', b'PLTE', b'tRNS', b'tRNS', b'tRNS', b'IDAT', b'IEND'], w,
+             got=kinds, want='IHDR pHYs PLTE tRNS tRNS tRNS IDAT IEND')
+    ch = FuncVal(fx.fn('writers', 'write_png.chunk'), genv, it)
+    bad = []
+    for name, data in ((b'IHDR', b'\x00\x01abc'), (b'IEND', b''), (b'IDAT', bytes(range(40)))):
+        want = struct.pack('>I', len(data)) + name + data + struct.pack('>I', zlib.crc32(name + data) & 0xffffffff)
+        got = ch(name, data)
+        if got != want:
+            bad.append((name, got, want))
+    yield ob('chunk(name, data) = length | name+data | CRC32(name+data)', not bad, fx.fn('writers', 'write_png.chunk'), got=bad[:1], want=[])
+    ih = [c for c in writes if isinstance(c.args[0], ast.Call) and ev.ev(c.args[0].args[0], {}) == b'IHDR'][0]
+    yield ob('IHDR = (width, height, bit depth, colour type, 0, 0, 0)', pat.match(ih.args[0].args[1], "pack(b'>2I5B', width, height, png_bit_depth, png_color_type, 0, 0, 0)") is not None,
+             ih, got=ast.unparse(ih.args[0].args[1]), want="pack(b'>2I5B', width, height, png_bit_depth, png_color_type, 0, 0, 0)")
+    idat = [c for c in writes if isinstance(c.args[0], ast.Call) and ev.ev(c.args[0].args[0], {}) == b'IDAT'][0]
+    yield ob('IDAT = zlib.compress(scanlines, compresslevel)', pat.match(idat.args[0].args[1], 'zlib.compress(idat, compresslevel)') is not None, idat,
+             got=ast.unparse(idat.args[0].args[1]), want='zlib.compress(idat, compresslevel)')
+    # bit depth decision
+    init = single([s for s in fn.body if isinstance(s, ast.Assign) and ast.unparse(s.targets[0]) == 'png_bit_depth'], 'initial bit depth')
+    dec = single([s for s in fn.body if isinstance(s, ast.If) and 'png_bit_depth' in ast.unparse(s) and ast.unparse(s.test) == 'not is_greyscale'], 'bit depth decision')
+    inner = [s for s in dec.body if isinstance(s, ast.If) and 'png_bit_depth' in ast.unparse(s)]
+    bad = []
+    for n in range(1, 17):
+        for grey in ((True, False) if n == 2 else (False,)):
+            e = dict(genv, number_of_colors=n, is_greyscale=grey)
+            it.block([init] + ([] if grey else inner), e)
+            d = e['png_bit_depth']
+            if d not in (1, 2, 4, 8) or n > 2 ** d:
+                bad.append((n, grey, d))
+    yield ob('bit depth holds every palette index: colours <= 2^depth for 1..16 colours', not bad, dec, got=bad, want=[])
+    ct = single([s for s in fn.body if isinstance(s, ast.Assign) and ast.unparse(s.targets[0]) == 'png_color_type'], 'colour type')
+    yield ob('colour type 0 (greyscale) / 3 (palette)', nf.norm(ct.value) == '0 if is_greyscale else 3', ct, got=ast.unparse(ct.value), want='0 if is_greyscale else 3')
+    # scanline
+    sl_fn = fx.fn('writers', 'write_png.scanline')
+    bad = []
+    for d in (1, 2, 4):
+        g2 = dict(genv, png_bit_depth=d)
+        sl = FuncVal(sl_fn, g2, it)
+        per = 8 // d
+        for row in ([1], [1, 0], [0, 1, 1], list(range(2 ** d)) * 3, [(2 ** d) - 1] * per, [1] * (per + 1), [0] * 9, [1, 0] * 8):
+            row = [x % (2 ** d) for x in row]
+            want = bytearray([0])
+            for i in range(0, len(row), per):
+                grp = row[i:i + per] + [0] * (per - len(row[i:i + per]))
+                v = 0
+                for x in grp:
+                    v = (v << d) | x
+                want.append(v)
+            got = sl(list(row))
+            if bytes(got) != bytes(want):
+                bad.append((d, row, bytes(got), bytes(want)))
+        got = sl([0] * per, filter_type=b'\x02')
+        if bytes(got) != b'\x02\x00':
+            bad.append((d, 'filter', bytes(got)))
+    yield ob('scanline: filter byte + 8/depth samples per byte, MSB first, zero fill (depth 1, 2, 4)', not bad, sl_fn, got=bad[:2], want=[])
+    # borders and repetition
+    stm = {ast.unparse(s.targets[0]): s for s in src.statements(fn.body) if isinstance(s, ast.Assign) and len(s.targets) == 1}
+    checks = [
+        ('horizontal_border', 'scanline(repeat(qz_value, width)) * border * scale'),
+        ('vertical_border', '[qz_value] * border * scale'),
+        ('same_as_above', "scanline(repeat(0, width), filter_type=b'\\x02') * (scale - 1)"),
+        ('qz_value', 'color_index[qz_idx]'),
+    ]
+    for name, want in checks:
+        cands = [s for s in src.statements(fn.body) if isinstance(s, ast.Assign) and ast.unparse(s.targets[0]) == name and not isinstance(s.value, ast.Constant)]
+        s = single(cands, f'{name} in write_png')
+        yield ob(f'write_png: {name}', nf.norm(s.value) == nf.norm(ast.parse(want, mode='eval').body), s, got=ast.unparse(s.value), want=want)
+    rep = [s for s in src.statements(fn.body) if isinstance(s, ast.Assign) and ast.unparse(s.targets[0]) == 'miter' and 'repeat(b, scale)' in ast.unparse(s.value)]
+    s = single(rep, 'horizontal repetition in write_png')
+    g = nf.guard_text(nf.guards_of(s, fn))
+    yield ob('each sample repeated `scale` times when scale > 1', nf.norm(s.value) == nf.norm(ast.parse('(chain(*(repeat(b, scale) for b in row)) for row in miter)', mode='eval').body)
+             and g == 'scale > 1', s, got=f'{ast.unparse(s.value)} if {g}', want='(chain(*(repeat(b, scale) for b in row)) for row in miter) if scale > 1')
+    loop = single([s for s in fn.body if isinstance(s, ast.For) and ast.unparse(s.iter) == 'miter'], 'row loop of write_png')
+    body = [ast.unparse(x) for x in loop.body]
+    yield ob('each row: scanline(border + row + border) followed by the repeated-row filter lines', body == ['idat += scanline(chain(vertical_border, row, vertical_border))', 'idat += same_as_above'],
+             loop, got=body, want=['idat += scanline(chain(vertical_border, row, vertical_border))', 'idat += same_as_above'])
+    pre = [ast.unparse(s) for s in fn.body if isinstance(s, (ast.Assign, ast.AugAssign)) and ast.unparse(s.targets[0] if isinstance(s, ast.Assign) else s.target) == 'idat']
+    yield ob('top and bottom border rows', pre == ['idat = bytearray(horizontal_border)', 'idat += horizontal_border'], fn, got=pre,
+             want=['idat = bytearray(horizontal_border)', 'idat += horizontal_border'])
+    ci = [s for s in src.statements(fn.body) if isinstance(s, ast.Expr) and 'color_index.update' in ast.unparse(s)]
+    s = single(ci, 'two-colour index map in write_png')
+    yield ob('two-colour path: 0 -> quiet-zone colour index, 1 -> dark colour index', nf.norm(s.value) == nf.norm(ast.parse('color_index.update({0: color_index[qz_idx], 1: palette.index(clr_map[dark_idx])})', mode='eval').body),
+             s, got=ast.unparse(s.value), want='color_index.update({0: color_index[qz_idx], 1: palette.index(clr_map[dark_idx])})')
+
+
+class _Z:
+    _model = ('crc32', 'compress')
+    crc32 = staticmethod(zlib.crc32)
+    compress = staticmethod(zlib.compress)
+
+
+@rule('C09', 'R5', 6, 'bit packing: PBM 8 pixels per byte MSB first (all 256 groups + partial), XBM LSB first; one token per cell in P1/TXT/XPM')
+def r5(fx):
+    it = Interp(max_steps=20_000_000)
+    red = __import__('functools').reduce
+    genv = callable_env(fx.forest, 'writers', it, {'reduce': red})
+    pr = FuncVal(fx.fn('writers', 'write_pbm.pack_row'), genv, it)
+    bad = []
+    for v in range(256):
+        bits = [(v >> (7 - k)) & 1 for k in range(8)]
+        if list(pr(bits)) != [v]:
+            bad.append((v, list(pr(bits))))
+    for bits, want in (([1], [0x80]), ([1, 1, 1], [0xE0]), ([0] * 8 + [1], [0, 0x80]), ([1] * 15, [0xFF, 0xFE])):
+        if list(pr(bits)) != want:
+            bad.append((bits, list(pr(bits))))
+    yield ob('PBM pack_row: MSB first, zero fill', not bad, fx.fn('writers', 'write_pbm.pack_row'), got=bad[:3], want=[])
+    pbm = fx.fn('writers', 'write_pbm')
+    hdr = [c for c in src.calls_in(pbm) if src.call_name(c) == 'write'][0]
+    htxt = ast.unparse(hdr.args[0])
+    yield ob('PBM header: magic, width height from the validated size', '("P4" if not plain else "P1")' in htxt.replace("'", '"') and '{width} {height}' in htxt, hdr,
+             got=htxt[:120], want='P4|P1, {width} {height}')
+    plain = [ast.unparse(s) for s in src.statements(pbm.body) if isinstance(s, ast.Expr) and 'str(i)' in ast.unparse(s)]
+    yield ob('P1: one digit per pixel, newline per row', plain == ["write(b''.join((str(i).encode('ascii') for i in row)))"], pbm, got=plain,
+             want="write(b''.join(str(i).encode('ascii') for i in row))")
+    # XBM
+    xbm = fx.fn('writers', 'write_xbm')
+    comp = [n for n in ast.walk(xbm) if isinstance(n, ast.ListComp) and 'reduce' in ast.unparse(n)]
+    lc = single(comp, 'XBM byte comprehension')
+    bad = []
+    for row in ([1, 0, 0, 0, 0, 0, 0, 0], [0, 0, 0, 0, 0, 0, 0, 1], [1, 1, 0, 0, 0, 0, 0, 0, 1], [1] * 3):
+        import itertools
+        groups = list(itertools.zip_longest(*[iter(row)] * 8, fillvalue=0))
+        got = ev.ev(lc, dict(genv, iter_=groups))
+        want = []
+        for g in groups:
+            v = 0
+            for k, bit in enumerate(g):
+                v |= bit << k
+            want.append(f'0x{v:02x}')
+        if got != want:
+            bad.append((row, got, want))
+    yield ob('XBM: first pixel in the least significant bit', not bad, lc, got=bad[:2], want=[])
+    hx = [c for c in src.calls_in(xbm) if src.call_name(c) == 'write'][0]
+    htxt = ast.unparse(hx.args[0])
+    yield ob('XBM header: _width/_height from the validated size', '_width {width}' in htxt and '_height {height}' in htxt, hx, got=htxt[:100], want='#define <name>_width {width} ...')
+    xpm = fx.fn('writers', 'write_xpm')
+    hp = [c for c in src.calls_in(xpm) if src.call_name(c) == 'write'][0]
+    htxt = ast.unparse(hp.args[0])
+    yield ob('XPM header: "{width} {height} 2 1" and the two colour lines', '"{width} {height} 2 1"' in htxt and '"  c {bg_color}"' in htxt and '"X c {stroke_color}"' in htxt,
+             hp, got=htxt[:160], want='"{width} {height} 2 1", "  c {bg_color}", "X c {stroke_color}"')
+
+
+def _tok(expr, var, env=None):
+    return [ev.ev(expr, dict(env or {}, **{var: b})) for b in (0, 1)]
+
+
+@rule('C09', 'R6', 7, 'polarity: value 1 reaches the dark token / colour of each format')
+def r6(fx):
+    xpm = fx.fn('writers', 'write_xpm')
+    tok = [n for n in ast.walk(xpm) if isinstance(n, ast.IfExp) and 'X' in ast.unparse(n) and isinstance(n.body, ast.Constant) and n.body.value in (' ', 'X')]
+    t = single(tok, 'XPM pixel token')
+    yield ob('XPM: 0 -> " " (light colour line), 1 -> "X" (dark colour line)', _tok(t, 'b') == [' ', 'X'], t, got=_tok(t, 'b'), want=[' ', 'X'])
+    sc = {ast.unparse(s.targets[0]): ast.unparse(s.value) for s in xpm.body if isinstance(s, ast.Assign)}
+    yield ob('XPM: X = dark, blank = light', sc.get('stroke_color', '').startswith('color_to_rgb_hex(dark)') and sc.get('bg_color', '').startswith('color_to_rgb_hex(light)'),
+             xpm, got=sc, want='stroke_color <- dark, bg_color <- light')
+    txt = fx.fn('writers', 'write_txt')
+    c = single([s for s in txt.body if isinstance(s, ast.Assign) and ast.unparse(s.targets[0]) == 'colours'], 'TXT colours')
+    j = [n for n in ast.walk(txt) if isinstance(n, ast.GeneratorExp) and 'colours[' in ast.unparse(n)]
+    yield ob('TXT: (light, dark)[bit], one character per cell, newline per row', nf.norm(c.value) == '(str(light), str(dark))' and len(j) == 1
+             and ast.unparse(j[0]) == '(colours[i] for i in row)', c, got=ast.unparse(c.value), want='(str(light), str(dark))')
+    pam = fx.fn('writers', 'write_pam')
+    inv = fx.fn('writers', 'write_pam.invert_row_bits')
+    r = single([s for s in inv.body if isinstance(s, ast.Return)], 'return of invert_row_bits')
+    got = list(ev.ev(r.value, {'row': [0, 1, 1, 0]}))
+    yield ob('PAM BLACKANDWHITE: 1 (dark) -> sample 0 (black)', got == [1, 0, 0, 1], r, got=got, want=[1, 0, 0, 1])
+    cols = [s for s in src.statements(pam.body) if isinstance(s, ast.Assign) and ast.unparse(s.targets[0]) == 'colours' and not isinstance(s.value, ast.Constant)]
+    texts = sorted(ast.unparse(s.value) for s in cols)
+    yield ob('PAM colour tuples are (light, dark) indexed by the bit', texts == ["(b'\\x01\\x00', b'\\x00\\x01')", '(pack(fmt, *bg_color), pack(fmt, *stroke_color))'], pam,
+             got=texts, want=["(b'\\x01\\x00', b'\\x00\\x01')", '(pack(fmt, *bg_color), pack(fmt, *stroke_color))'])
+    rc = fx.fn('writers', 'write_pam.row_to_color_values')
+    rr = single([s for s in rc.body if isinstance(s, ast.Return)], 'return of row_to_color_values')
+    yield ob('PAM colour rows: colours[bit] per pixel', pat.match(rr.value, "b''.join(colours[b] for b in row)") is not None, rr, got=ast.unparse(rr.value),
+             want="b''.join(colours[b] for b in row)")
+    term = fx.fn('writers', 'write_terminal')
+    tc = single([s for s in src.statements(term.body) if isinstance(s, ast.Assign) and ast.unparse(s.targets[0]) == 'colours'], 'terminal colours')
+    comp = fx.fn('writers', 'write_terminal_compact')
+    bl = single([s for s in comp.body if isinstance(s, ast.Assign) and ast.unparse(s.targets[0]) == 'blocks'], 'compact blocks')
+    blocks = ev.ev(bl.value, {})
+    okc = blocks == {(1, 1): ' ', (0, 1): '▀', (1, 0): '▄', (0, 0): '█'}
+    okt = ev.ev(tc.value, {}) == ['\033[7m', '\033[49m']
+    yield ob('terminal writers: dark = terminal background, light = inverse / full block (both writers agree)', okc and okt, term,
+             got=(ev.ev(tc.value, {}), blocks), want='[ESC[7m, ESC[49m]; {(1,1): " ", (0,0): full block, ...}')
+
+
+@rule('C09', 'R8', 14, 'PAM header decision over all (dark, light) colour classes; MAXVAL / PPM maxval = scale of the samples')
+def r8(fx):
+    fn = fx.fn('writers', 'write_pam')
+    it = Interp(max_steps=20_000_000)
+    genv = callable_env(fx.forest, 'writers', it, {'pack': struct.pack, 'partial': __import__('functools').partial})
+    w = [i for i, s in enumerate(fn.body) if isinstance(s, ast.With)]
+    need(len(w) == 1, 'write_pam: output block')
+    pre = fn.body[:w[0]]
+    classes = {'black': ('#000', 'bw'), 'black2': ('black', 'bw'), 'white': ('#FFFFFF', 'bw'), 'red': ('red', 'c'), 'navy': ((0, 0, 139), 'c'),
+               'yellow': ('yellow', 'c'), 'none': (None, 'n')}
+    for dk in ('black', 'black2', 'white', 'red', 'navy'):
+        for lk in ('none', 'white', 'black', 'yellow', 'red'):
+            dark, dcls = classes[dk]
+            light, lcls = classes[lk]
+            e = dict(genv, matrix=[[0]], matrix_size=(21, 21), out='<out>', scale=1, border=None, dark=dark, light=light)
+            e['matrix_iter'] = lambda *a, **k: []
+            try:
+                it.block(pre, e)
+                got = (e['tuple_type'], e['depth'], e['maxval'])
+            except PyRaise as ex:
+                got = f'raises {ex.name}'
+            if lcls == 'n':
+                want = ('GRAYSCALE_ALPHA', 2, 1) if dcls == 'bw' else ('RGB_ALPHA', 4, 255)
+            elif dcls == 'bw' and lcls == 'bw':
+                want = ('BLACKANDWHITE', 1, 1)
+            else:
+                want = ('RGB', 3, 255)
+            yield ob(f'PAM dark={dark!r} light={light!r}', got == want, fn, got=got, want=want)
+    ppm = fx.fn('writers', 'write_ppm')
+    hdr = [c for c in src.calls_in(ppm) if src.call_name(c) == 'write'][0]
+    htxt = ast.unparse(hdr.args[0])
+    yield ob('PPM header: P6, {width} {height}, maxval 255', 'P6 #' in htxt and '{width} {height} 255' in htxt, hdr, got=htxt[:100], want='P6 ... {width} {height} 255')
+    conv = [s for s in src.statements(ppm.body) if isinstance(s, ast.Assign) and 'colormap[mt]' in ast.unparse(s.targets[0])]
+    c = single(conv, 'PPM colour conversion')
+    yield ob('PPM samples come from _color_to_rgb (0..255)', pat.match(c.value, '_color_to_rgb(clr)') is not None, c, got=ast.unparse(c.value), want='_color_to_rgb(clr)')
+    hp = [c for c in src.calls_in(fn) if src.call_name(c) == 'write'][0]
+    htxt = ast.unparse(hp.args[0])
+    yield ob('PAM header fields from the computed values', all(x in htxt for x in ('WIDTH {width}', 'HEIGHT {height}', 'DEPTH {depth}', 'MAXVAL {maxval}', 'TUPLTYPE {tuple_type}', 'ENDHDR')),
+             hp, got=htxt[:200], want='WIDTH/HEIGHT/DEPTH/MAXVAL/TUPLTYPE/ENDHDR')
+
+
+@rule('C09', 'R3', 12, 'iterator mapping and validation (C11.R6), validation before output (C14.R8)')
+def r3(fx):
+    for o in p11.r6(fx):
+        if o.key.startswith('matrix_iter size') and ('scale 2.9' in o.key or 'scale 1 ' in o.key or 'scale 3' in o.key):
+            yield o
+    for o in p14.r8(fx):
+        if 'validates scale and border' in o.key or '_valid_width_height_and_border' in o.key:
+            yield o
